@@ -6,11 +6,14 @@ From SV Require Export Tree.Utils Holder.Build.
 Record env := {
   e_cfg : string;        (* SQLLineageConfig.DEFAULT_SCHEMA at analysis time *)
   e_icfg : string;       (* ... at import time (default argument of Table.__init__) *)
-  e_dialect : string;
+  e_vertica : bool;      (* the only use of the dialect name in the extractors: dialect == "vertica" *)
   e_provider : provider;
   (* oracle: SqlFluffColumn._get_column_from_subquery (nested legacy runner), keyed by the raw text of the bracket *)
   e_scalar : list (string * list (string * option string))
 }.
+
+Definition mk_env (dialect cfg icfg : string) (p : provider) (sc : list (string * list (string * option string))) : env :=
+  {| e_cfg := cfg; e_icfg := icfg; e_vertica := String.eqb dialect "vertica"; e_provider := p; e_scalar := sc |}.
 
 Definition ELineage := "SQLLineageException".
 
